@@ -530,3 +530,150 @@ def replay_ready(fl, FA, vals=None, seed=0, budget=200, exclude_known=False, **k
                     return {"failed": True, "expected": "process() completes: is_ready() reported no error", "observed": f"{type(ex).__name__}: {ex}", "cases": cases,
                             "call": f"{desc}; inputs {row} given as {fname}"}
     return {"failed": False, "cases": cases, "distinct": len(seen)}
+
+
+def _sem_obj(fl, node, conj, disj, state):
+    """value of a loaded expression tree (real Proposition/Operator objects) by the documented grammar; `state` maps an output
+    variable to the activations accumulated so far"""
+    import numpy as np
+    if isinstance(node, fl.Proposition):
+        var = node.variable
+        if not var.enabled:
+            return np.float64(0.0)
+        hs = list(node.hedges)
+        if hs and isinstance(hs[-1], fl.Any):
+            d = np.float64(1.0); hs = hs[:-1]
+        elif isinstance(var, fl.OutputVariable):
+            d, first = np.float64(0.0), True
+            for (t, deg, impl) in state[var.name]:
+                if t.name == node.term.name:
+                    d = np.float64(deg) if first else np.float64((var.aggregation or fl.UnboundedSum()).compute(d, deg))
+                    first = False
+        else:
+            d = np.float64(node.term.membership(var.value))
+        for h in reversed(hs):
+            d = np.float64(h.hedge(d))
+        return d
+    a = _sem_obj(fl, node.left, conj, disj, state); b = _sem_obj(fl, node.right, conj, disj, state)
+    return np.float64((conj if node.name == "and" else disj).compute(a, b))
+
+
+def reference_process(fl, e, held):
+    """the documented pipeline, wired independently of Engine.process / RuleBlock.activate / Rule.* / Consequent.modify /
+    OutputVariable.defuzzify; leaves (membership, compute, hedge, defuzzify of an Aggregated built here) are the library's own"""
+    import numpy as np
+    state = {ov.name: [] for ov in e.output_variables}
+    for block in e.rule_blocks:
+        if not block.enabled:
+            continue
+        for rule in block.rules:            # General activation: every enabled rule fires, in order, on the outputs accumulated so far
+            if not rule.is_loaded():
+                continue
+            d = np.float64(rule.weight) * _sem_obj(fl, rule.antecedent.expression, block.conjunction, block.disjunction, state)
+            if not rule.enabled:
+                continue
+            for c in rule.consequent.conclusions:
+                if c.variable.enabled:
+                    dd = d
+                    for h in reversed(c.hedges):
+                        dd = np.float64(h.hedge(dd))
+                    state[c.variable.name].append((c.term, _clean(dd), block.implication))
+    out = {}
+    for ov in e.output_variables:
+        if not ov.enabled:
+            out[ov.name] = held[ov.name]
+            continue
+        agg = fl.Aggregated(ov.name, ov.minimum, ov.maximum, ov.aggregation, [fl.Activated(t, d, i) for (t, d, i) in state[ov.name]])
+        dv = float(np.float64(ov.defuzzifier.defuzzify(agg, ov.minimum, ov.maximum)))
+        out[ov.name] = _step(held[ov.name], dv, ov.lock_previous, ov.default_value, ov.lock_range, ov.minimum, ov.maximum)
+    return out, state
+
+
+def _gen_engine(fl, rng):
+    nin, nout = rng.choice([1, 2, 3]), rng.choice([1, 2])
+    term_makers = [lambda n, a, b: fl.Triangle(n, a, (a + b) / 2, b), lambda n, a, b: fl.Ramp(n, a, b), lambda n, a, b: fl.Gaussian(n, (a + b) / 2, (b - a) / 4),
+                   lambda n, a, b: fl.Trapezoid(n, a, a + (b - a) * .25, a + (b - a) * .75, b), lambda n, a, b: fl.Sigmoid(n, (a + b) / 2, 8.0 / (b - a))]
+    ins = []
+    for i in range(nin):
+        ins.append(fl.InputVariable(name="ABC"[i], minimum=0.0, maximum=1.0, enabled=rng.random() > 0.1, lock_range=rng.random() < 0.2,
+                                    terms=[rng.choice(term_makers)("lo", -0.5, 0.6), rng.choice(term_makers)("hi", 0.4, 1.5)]))
+    outs = []
+    for i in range(nout):
+        if rng.random() < 0.6:
+            ov = fl.OutputVariable(name="YZ"[i], minimum=0.0, maximum=1.0, aggregation=rng.choice([fl.Maximum(), fl.AlgebraicSum(), fl.BoundedSum()]),
+                                   defuzzifier=rng.choice([fl.Centroid(64), fl.Bisector(64), fl.MeanOfMaximum(64), fl.SmallestOfMaximum(64), fl.LargestOfMaximum(64)]),
+                                   terms=[fl.Triangle("lo", 0.0, 0.25, 0.5), fl.Triangle("hi", 0.5, 0.75, 1.0)])
+        else:
+            ov = fl.OutputVariable(name="YZ"[i], minimum=-10.0, maximum=10.0, aggregation=rng.choice([None, fl.UnboundedSum(), fl.Maximum()]),
+                                   defuzzifier=rng.choice([fl.WeightedAverage(), fl.WeightedSum()]), terms=[fl.Constant("lo", -2.0), fl.Constant("hi", 3.0)])
+        ov.enabled = rng.random() > 0.1
+        ov.lock_previous = rng.random() < 0.3; ov.default_value = rng.choice([float("nan"), float("nan"), 0.5]); ov.lock_range = rng.random() < 0.3
+        outs.append(ov)
+    e = fl.Engine(name="g", input_variables=ins, output_variables=outs, rule_blocks=[])
+    names_in = [v.name for v in ins]; names_out = [v.name for v in outs]
+    hedges = ["", "", "very ", "not ", "somewhat ", "not very "]
+
+    def prop(allow_out):
+        pool = names_in + (names_out if allow_out else [])
+        v = rng.choice(pool)
+        if rng.random() < 0.08:
+            return f"{v} is any"
+        return f"{v} is {rng.choice(hedges)}{rng.choice(['lo', 'hi'])}"
+
+    def ant(depth):
+        if depth == 0 or rng.random() < 0.4:
+            return prop(rng.random() < 0.25)
+        l, r = ant(depth - 1), ant(depth - 1)
+        op = rng.choice(["and", "or"])
+        return f"({l}) {op} ({r})" if rng.random() < 0.5 else f"{l} {op} {r}"
+
+    for b in range(rng.choice([1, 2])):
+        rules = []
+        for _ in range(rng.randrange(1, 5)):
+            cons = " and ".join(f"{rng.choice(names_out)} is {rng.choice(hedges) if rng.random() < 0.3 else ''}{rng.choice(['lo', 'hi'])}" for _ in range(rng.choice([1, 1, 2])))
+            w = rng.choice([1.0, 1.0, 0.5, 0.25])
+            r = fl.Rule.create(f"if {ant(2)} then {cons}" + (f" with {w}" if w != 1.0 else ""), e)
+            r.enabled = rng.random() > 0.15
+            rules.append(r)
+        conj = rng.choice([fl.Minimum(), fl.AlgebraicProduct(), fl.NormLambda(lambda a, b: 0.75 * a + 0.25 * b * b)])
+        disj = rng.choice([fl.Maximum(), fl.AlgebraicSum(), fl.NormLambda(lambda a, b: 0.5 * a + 0.5 * b * b)])
+        e.rule_blocks.append(fl.RuleBlock(name=f"b{b}", enabled=rng.random() > 0.15, conjunction=conj, disjunction=disj,
+                                          implication=rng.choice([fl.Minimum(), fl.AlgebraicProduct()]), activation=fl.General(), rules=rules))
+    return e
+
+
+def replay_pipeline(fl, FA, vals=None, seed=0, budget=150, exclude_known=True, **kw):
+    """generated engines x input rows (interior, bounds, breakpoints, out of range, +-inf, NaN): Engine.process against the reference pipeline"""
+    import random
+    import numpy as np
+    rng = random.Random(seed)
+    cases, seen = 0, set()
+    rows = [0.0, 1.0, 0.5, 0.25, 0.6, 0.4, -0.5, 1.5, float("inf"), float("-inf"), float("nan"), 0.05, 0.95]
+    for it in range(budget):
+        e = _gen_engine(fl, rng)
+        if exclude_known and any(known_c07_1([(c.variable.name, c.hedges, None) for c in r.consequent.conclusions], {c.variable.name: True for c in r.consequent.conclusions})
+                                 if False else any(c.hedges for c in r.consequent.conclusions[:-1]) for b in e.rule_blocks for r in b.rules):
+            continue       # region of known finding C07-1 (hedged conclusion followed by another one)
+        for step in range(3):            # several steps on the same engine: earlier steps must leave no trace except the held value
+            for v in e.input_variables:
+                v.value = rng.choice(rows)
+            held = {ov.name: float(np.take(np.asarray(ov.value, dtype=float), -1)) for ov in e.output_variables}
+            try:
+                exp, st = reference_process(fl, e, held)
+            except Exception as ex:  # noqa   (e.g. TypeError of infer_type for mixed term kinds): not a case of this property
+                continue
+            e.process()
+            cases += 1
+            seen.add((len(e.input_variables), len(e.output_variables), len(e.rule_blocks), tuple(r.text for b in e.rule_blocks for r in b.rules)))
+            for ov in e.output_variables:
+                got = float(np.take(np.asarray(ov.value, dtype=float), -1))
+                got_terms = [(a.term.name, float(a.degree)) for a in ov.fuzzy.terms]
+                exp_terms = [(t.name, float(d)) for (t, d, i) in st[ov.name]]
+                ok_terms = len(got_terms) == len(exp_terms) and all(g[0] == x[0] and FA.same(g[1], x[1], rel=1e-12, abs_=1e-12) for g, x in zip(got_terms, exp_terms))
+                if not ok_terms or not FA.same(got, exp[ov.name], rel=1e-9, abs_=1e-9):
+                    j = lambda x: None if x != x else x
+                    return {"failed": True, "cases": cases, "expected": {"value": j(exp[ov.name]), "fuzzy": exp_terms}, "observed": {"value": j(got), "fuzzy": got_terms},
+                            "call": f"output {ov.name} (enabled={ov.enabled}, {type(ov.defuzzifier).__name__}) of engine with inputs "
+                                    f"{[(v.name, j(float(v.value)), v.enabled) for v in e.input_variables]}, blocks "
+                                    f"{[(b.name, b.enabled, [(r.text, r.enabled) for r in b.rules]) for b in e.rule_blocks]}, step {step}"}
+    return {"failed": False, "cases": cases, "distinct": len(seen)}
